@@ -51,7 +51,7 @@ func Sites(d *spec.Design, v any, a *spec.Attr, path string, set func(any)) []Si
 			add("excl_min")
 		}
 		if val.ExclMax != nil {
-			add("excl_max")
+			add(ExclMaxRule(val))
 		}
 		if val.MinLength != nil && *val.MinLength > 0 {
 			add("min_length")
@@ -142,7 +142,7 @@ func (s Site) Break(t *verifsim.Tape, d *spec.Design, loc Loc) bool {
 		} else {
 			nv, ok = num(*v0.ExclMin - step)
 		}
-	case "excl_max":
+	case "excl_max", "excl_max_beside_excl_min":
 		if t.Draw("at-bound", 2) == 0 {
 			nv, ok = num(*v0.ExclMax)
 		} else {
